@@ -171,6 +171,48 @@ def grouped_hostile(l1: int, f1: int, l2: int, f2: int, l3: int, tail: bytes) ->
                     "nested grouped decode must return or raise AvpDecodeError - on every read")
 
 
+DEPTHS = [1, 2, 5, 16, 100, 330, 400, 1000, 3000]
+MSG_KINDS = [("unknown command", 9999999, 0x80), ("DWR", 280, 0x80), ("CCR", 272, 0x80), ("unknown answer", 9999998, 0), ("plain", 280, 0x80)]
+
+
+def deep_nest(di: int, ki: int, leaf: int, cut: bool) -> bool:
+    """
+    pre: 0 <= di < len(DEPTHS) and 0 <= ki < len(MSG_KINDS) and 0 <= leaf <= 2
+    post: _
+    """
+    hx.begin()
+    # a message whose single AVP is a Grouped AVP nested DEPTHS[di] levels deep (8 bytes per level: 3000 levels are a 24 KB
+    # message any peer can send).  All inputs are choices, fixed first; the decode runs natively (tracing a 3000-deep recursion
+    # is beyond CrossHair, and the interpreter's recursion limit is the subject)
+    depth = DEPTHS[hx.concretize_range(di, 0, len(DEPTHS))]
+    kname, code, flags = MSG_KINDS[hx.concretize_range(ki, 0, len(MSG_KINDS))]
+    lf = [b"", b"\x00\x00\x00\x01", b"\xff"][hx.concretize_range(leaf, 0, 3)]
+    cut = bool(hx.concretize(cut))
+    inputs = (di, ki, leaf, cut)
+    G = REPS["AvpGrouped"][0]
+    with hx.untraced():
+        body = be(0xfffffff0, 4) + bytes([0]) + be(8 + len(lf), 3) + lf + b"\x00" * ((-len(lf)) % 4)
+        for _ in range(depth):
+            body = be(G, 4) + bytes([0x40]) + be(8 + len(body), 3) + body
+        if cut:
+            body = body[:-3]                     # and the innermost levels are truncated
+            body = body[:5] + be(len(body), 3) + body[8:]
+        buf = bytes([1]) + be(20 + len(body), 3) + bytes([flags]) + be(code, 3) + b"\x00" * 12 + body
+        box = {}
+
+        def dec():
+            box["m"] = Message.from_bytes(buf, plain_msg=(kname == "plain"))
+        r1 = _classify(dec)
+        r2 = r3 = r4 = "ok"
+        if r1 == "ok":
+            m = box["m"]
+            r2 = _classify(lambda: [str(a) for a in m.avps])
+            r3 = _classify(lambda: str(m.header))
+            r4 = _classify(lambda: [a.value for a in m.avps])
+    return hx.holds(inputs, r1 in ("ok", "decode-error") and r2 == "ok" and r3 == "ok" and r4 in ("ok", "decode-error"), (r1, r2, r3, r4),
+                    "a deeply nested Grouped AVP (%d levels, %s): decoding returns or raises a library decode error; rendering never raises" % (depth, kname))
+
+
 # ----------------------------------------------------------------------------- 4. whole messages
 def msg_hostile(hdr: bytes, tail: bytes) -> bool:
     """
@@ -259,6 +301,8 @@ def specs(tier, seed, carve):
     for nest in ((2,) if q else (2, 3, 4)):
         out.append(dict(id="grouped_hostile/nest%d" % nest, fn="grouped_hostile", params={"nest": nest, "opaquefmt": True}, timeout=300 if q else 2400, path_timeout=30,
                         bound="grouped AVP nesting %d: every 24-bit outer/inner length field, flag octets, innermost tail <= 4 B" % nest))
+    out.append(dict(id="deep_nest", fn="deep_nest", params={}, timeout=600,
+                    bound="one Grouped AVP nested %s levels deep (innermost AVP empty / 4 bytes / 1 byte, complete or truncated) in a message of an unknown command, DWR, CCR, an unknown answer, and decoded with plain_msg" % DEPTHS))
     kinds = [("unknown", -1, -1, [0xfffffff0, 264, 257], True), ("generic283", 283, -1, [0xfffffff0, 264, 443], True),
              ("CER", 257, 1, [264, 257, 260, 258], False), ("DWA", 280, 0, [268, 264, 279, 278], False), ("CCR", 272, 1, [263, 456, 443, 416], False)]
     tails = (0, 3, 8) if q else (0, 1, 3, 7, 8, 9, 11, 12, 13, 16)
